@@ -47,6 +47,7 @@ Proof.
 Qed.
 
 Section PosLines.
+  Variable dq : bool.
   Variable lines : list string.
   Variable mc line first_line anchor_len : nat.
   Hypothesis Hline : 1 <= line.
@@ -86,7 +87,7 @@ Section PosLines.
 
   Lemma pl_loop_ok : forall fuel idx col need acc lb,
     line <= idx -> (lb = true -> line < idx) -> 1 <= col -> Inv idx acc ->
-    exists r, pl_loop fuel lines mc first_line anchor_len idx col need acc lb = Some r /\ Post r.
+    exists r, pl_loop fuel dq lines mc first_line anchor_len idx col need acc lb = Some r /\ Post r.
   Proof.
     induction fuel as [|fuel IH]; intros idx col need acc lb Hidx Hlb Hcol Hacc.
     - exists acc. split; [reflexivity|exact (inv_post idx acc Hacc)].
@@ -102,9 +103,9 @@ Section PosLines.
                               if (Ascii.eqb c sp || Ascii.eqb c nl)%bool then
                                 match nr with
                                 | EmptyString => Some acc'
-                                | String _ _ => pl_loop fuel lines mc first_line anchor_len (S idx) mc nr acc' true
+                                | String _ _ => pl_loop fuel dq lines mc first_line anchor_len (S idx) mc nr acc' true
                                 end
-                              else pl_loop fuel lines mc first_line anchor_len (S idx) mc need' acc' false
+                              else pl_loop fuel dq lines mc first_line anchor_len (S idx) mc need' acc' false
                           | EmptyString => Some acc'
                           end = Some r /\ Post r).
       { intros need' acc' Ha. destruct need' as [|c nr]; [exists acc'; split; [reflexivity|exact (inv_post _ _ Ha)]|].
@@ -125,7 +126,7 @@ Section PosLines.
       { assert (X : S (idx - 1) <= elen lines).
         { apply elen_nonempty; [lia|]. intros C. rewrite C in E2. apply E2. reflexivity. }
         lia. }
-      match goal with |- context [scan_line ?a ?b] => destruct (scan_line a b) as [need' matched] end.
+      match goal with |- context [scan dq ?a ?b] => destruct (scan dq a b) as [need' matched] end.
       assert (H2 : Inv (S idx) (if matched then upd acc1 idx else acc1)).
       { destruct matched; [apply inv_upd_here; assumption|exact H1]. }
       destruct need' as [|c' nr']; [eexists; split; [reflexivity|exact (inv_post _ _ H2)]|].
@@ -135,15 +136,15 @@ End PosLines.
 
 (** NewPositionRange never panics on a node whose line and column count from 1 (minimum column >= 1), and its lines
     are where they should be — for every style (block or not) and anchor length. *)
-Theorem pos_lines_ok lines mc line value col block anchor_len :
+Theorem pos_lines_ok lines mc line value col block anchor_len dq :
   1 <= line -> 1 <= mc -> 1 <= col ->
-  exists f l, pos_lines lines value line col mc block anchor_len = Some (f, l) /\
+  exists f l, pos_lines lines value line col mc block anchor_len dq = Some (f, l) /\
               line <= f /\ f <= l /\ l <= Nat.max line (elen lines).
 Proof.
   intros Hline Hmc Hcol. unfold pos_lines. destruct value as [|c v]; [exists line, line; repeat split; lia|].
   assert (Hc0 : 1 <= (if block then mc else col)) by (destruct block; assumption).
   assert (Hs : line <= (if block then S line else line)) by (destruct block; lia).
-  destruct (pl_loop_ok lines mc line line anchor_len Hline Hmc (S (List.length lines)) (if block then S line else line)
+  destruct (pl_loop_ok dq lines mc line line anchor_len Hline Hmc (S (List.length lines)) (if block then S line else line)
                        (if block then mc else col) (String c v) None false Hs (fun X => False_ind _ (Bool.diff_false_true X)) Hc0 I)
     as (r & E & P).
   rewrite E. destruct r as [[f l]|]; [|exists line, line; repeat split; lia].
@@ -157,15 +158,15 @@ Theorem plines_run_ok : forall lines n mc,
   snd (plines_run lines n mc) <= Nat.max (n_line n) (elen lines).
 Proof.
   intros lines n mc H1 H2 H3. unfold plines_run.
-  destruct (pos_lines_ok lines mc (n_line n) (n_value n) (n_col n) (node_block n) (node_anchor_len n) H1 H3 H2) as (f & l & E & A & B & C).
+  destruct (pos_lines_ok lines mc (n_line n) (n_value n) (n_col n) (node_block n) (node_anchor_len n) (node_dq n) H1 H3 H2) as (f & l & E & A & B & C).
   rewrite E. cbn [fst snd]. repeat split; assumption.
 Qed.
 
 (** ... and never takes the panic branch. *)
 Theorem pos_lines_total : forall lines n mc,
   1 <= n_line n -> 1 <= n_col n -> 1 <= mc ->
-  forall block anchor_len, pos_lines lines (n_value n) (n_line n) (n_col n) mc block anchor_len <> None.
+  forall block anchor_len dq, pos_lines lines (n_value n) (n_line n) (n_col n) mc block anchor_len dq <> None.
 Proof.
-  intros lines n mc H1 H2 H3 block anchor_len.
-  destruct (pos_lines_ok lines mc (n_line n) (n_value n) (n_col n) block anchor_len H1 H3 H2) as (f & l & E & _). rewrite E. discriminate.
+  intros lines n mc H1 H2 H3 block anchor_len dq.
+  destruct (pos_lines_ok lines mc (n_line n) (n_value n) (n_col n) block anchor_len dq H1 H3 H2) as (f & l & E & _). rewrite E. discriminate.
 Qed.
